@@ -274,7 +274,11 @@ def r5_selector_regexes(ctx, rep):
     """kind/len selectors are displayed from what KIND_RE / LEN_RE capture: the capture must span the whole
     selector expression (E2), otherwise `character(len=n+1)` is shown as `len=n`."""
     py, rx = ctx.py, ctx.rx
-    EXPR = r"[a-z0-9_]+(?:[-+*/][a-z0-9_]+)*"     # blank-free expression without commas/parentheses
+    ATOM = r"[a-z0-9_]+"
+    SIMPLE = rf"{ATOM}(?:[-+*/]{ATOM})*"
+    # blank-free expression; a function reference may carry a comma-separated argument list (one nesting level):
+    # `len=max(1,n)`, `kind=selected_real_kind(6,37)`
+    EXPR = rf"(?:{ATOM}\({SIMPLE}(?:,{SIMPLE})*\)|{ATOM})(?:[-+*/](?:{ATOM}\({SIMPLE}(?:,{SIMPLE})*\)|{ATOM}))*"
     for name, kw in (("sourceform.LEN_RE", "len"), ("sourceform.KIND_RE", "kind")):
         pat, flags, node, _ = ctx.regexes[name]
         # the selector text handed to the regex has blanks removed (parse_type: re.sub(r"\s", "", args))
@@ -294,15 +298,66 @@ def r5_selector_regexes(ctx, rep):
            f"for the positional selector `{w}` the regex matches only a prefix: `character({w})` is displayed with a "
            f"truncated length", py.nloc(node), witness=w)
     pt = py.func("sourceform.parse_type")
+    # the character selector list is split at top-level commas only: a str.split(",") cuts `len=max(1,n)` in two
+    splits = [c for c in py.walk_calls(pt) if isinstance(c.func, ast.Attribute) and c.func.attr == "split"
+              and isinstance(c.func.value, ast.Name) and c.func.value.id == "args"
+              and c.args and isinstance(c.args[0], ast.Constant) and c.args[0].value == ","]
+    psplits = [c for c in py.walk_calls(pt) if call_name(c).endswith("paren_split") and len(c.args) == 2
+               and isinstance(c.args[1], ast.Name) and c.args[1].id == "args"]
+    ok = not splits and len(psplits) == 1
+    rep.ob("parse_type splits the character selector list at top-level commas", ok,
+           "paren_split(',', args)" if ok else
+           "the selector list is split at every comma: `character(len=max(1,n))` is rejected or displayed with a truncated length",
+           py.nloc(splits[0] if splits else pt))
     ok = "args = re.sub('\\\\s', '', args)" in ast.unparse(pt)
     rep.ob("parse_type removes blanks from the selector before matching", ok, "", py.nloc(pt), nontrivial=False)
 
 
+def r6_relurl_plain_text(ctx, rep):
+    """Declaration text goes through the `relurl` filter.  relative_url may rewrite (a) the href of an <a> element it
+    found and (b) a string that is an absolute path.  Rewriting any other string as if it were a path mangles
+    declarations that merely contain a slash: `real, dimension(n/2)`."""
+    py = ctx.py
+    fn = py.func("output.relative_url")
+    parents = {}
+    for n in ast.walk(fn):
+        for c in ast.iter_child_nodes(n):
+            parents[c] = n
+    rel = [c for c in py.walk_calls(fn) if call_name(c).endswith("relpath")]
+    if len(rel) != 1 or not isinstance(rel[0].args[0], ast.Name):
+        raise AnalysisError("relative_url: the os.path.relpath(<var>, ...) call was not found")
+    var = rel[0].args[0].id
+    assigns = [n for n in ast.walk(fn) if isinstance(n, ast.Assign)
+               and any(isinstance(t, ast.Name) and t.id == var for t in n.targets)]
+    if not assigns:
+        raise AnalysisError(f"relative_url: no assignment to {var}")
+    for a in assigns:
+        # the conjunction of tests under which this assignment executes
+        conds: List[str] = []
+        n = a
+        while n in parents:
+            p = parents[n]
+            if isinstance(p, ast.If):
+                t = ast.unparse(p.test)
+                conds.append(t if n in p.body else f"not ({t})")
+            n = p
+        link = any(re.fullmatch(r"\w+ is not None", c) for c in conds)
+        isabs = any(c.startswith(("os.path.isabs(", "pathlib.Path(")) and "is_absolute" in c or c.startswith("os.path.isabs(")
+                    for c in conds)
+        src = ast.unparse(a.value)
+        ok = link or isabs
+        rep.ob(f"relative_url: `{var} = {src}` only for a link or an absolute path", ok,
+               f"guarded by {conds}" if ok else
+               f"a string without an <a> element is rewritten as a path although it need not be one (guards: {conds}): "
+               f"`real, dimension(n/2)` is displayed with a mangled bound", py.nloc(a))
+
+
 RULES = [
-    RuleSpec("C18.R5", r5_selector_regexes, "kind/len selector regexes capture the whole expression", floor=3),
+    RuleSpec("C18.R5", r5_selector_regexes, "kind/len selector regexes capture the whole expression", floor=5),
     RuleSpec("C18.R4", r4_literals_and_argument_attributes, "literal case is preserved; argument attributes are complete", floor=5),
     RuleSpec("C18.R1a", r1_sources, "literal re-insertion sites are the tracked sources; no autoescape", floor=4),
     RuleSpec("C18.R1", r1_sinks, "literal-bearing text is escaped at every template sink", floor=8),
     RuleSpec("C18.R2", r2_no_transform_after_restore, "no transformation after literals are re-inserted", floor=4),
     RuleSpec("C18.R3", r3_heading, "procedure heading assembly", floor=8),
+    RuleSpec("C18.R6", r6_relurl_plain_text, "relurl rewrites links and absolute paths only", floor=2),
 ]
